@@ -143,6 +143,57 @@ def shard_programs(cfgname, seed, count):
     return acc
 
 
+def shard_long(seed, nwords):
+    """ONE instance steps through more distinct instruction words than any bounded per-instance table (a decode memo, a translation cache) can hold,
+    with UNDEFINED and repeated words in between: `nwords` distinct ARM data-processing immediates (MOV / MVN / ADD / SUB x S x Rd x imm12), every
+    1000th step an UNDEFINED word, every 997th a word seen before. Stepping must stay total and every MOV must still move."""
+    acc = Acc()
+    rng = random.Random(seed)
+    case = gen.step_case(rng, 'v6', False, e1.enc_arm(0xE1A00000), mode='svc', code_base=0x8000, mpu=False)
+    case['state']['sctlr'] &= ~((1 << 13) | (1 << 30))
+    case['state']['vbar'] = 0
+    cpu = e1.build(case)
+    target.poke(cpu, 0x04, e1.enc_arm(0xE1B0F00E))                  # Undefined Instruction vector: MOVS PC, LR (return to the next word)
+    pc = 0x8040
+    codemem = [mc for mc in cpu.mem.memories if mc.beginning == 0x8000][0].mem
+    seen = []
+    done = 0
+    k = 0
+    while done < nwords:
+        k += 1
+        if k % 1000 == 0 or k in (3, 5):
+            w, kind = (0xE320F005, 0xE7F000F0, 0xE320F0F7, 0xF7F0A000)[(k // 1000) & 3], 'undefined'          # unallocated hint / UDF / permanently UNDEFINED words, each of them again and again: the handler returns
+        elif k % 997 == 0 and seen:
+            w, kind = seen[rng.randrange(len(seen))], 'again'
+        else:
+            op = (0xE3A00000, 0xE3E00000, 0xE2800000, 0xE2400000)[done & 3]          # MOV / MVN / ADD / SUB (immediate), S from bit 2
+            w = op | (((done >> 2) & 1) << 20) | (((done >> 3) & 7) << 12) | (((done >> 3) & 7) << 16) | ((done >> 6) & 0xFFF)
+            kind = 'new'
+            done += 1
+            if rng.random() < 0.001:
+                seen.append(w)
+        target.mem_fill(codemem, pc - 0x8000, e1.enc_arm(w))
+        cpu.registers.branch_to(pc)
+        steps = 2 if kind == 'undefined' else 1
+        for _ in range(steps):
+            e = target.step_budget(cpu)
+            if e is not None:
+                break
+        if kind != 'new' or k % 256 == 0:
+            acc.case(True, ('long', seed, k), cls='long-run:' + kind)
+        else:
+            acc.evals += 1
+        if e is not None and not target.escape_ok(e):
+            acc.violation(bucket(e), {'kind': 'long-run', 'seed': seed, 'nwords': nwords, 'failed_at_step': k, 'word': w}, {'exception': repr(e), 'step': k, 'word': '%#x' % w})
+            return acc
+        if kind == 'new' and (w >> 21) & 0xF == 0xD and cpu.registers.get((w >> 12) & 15) != (((w & 0xFF) >> (2 * ((w >> 8) & 15))) | ((w & 0xFF) << (32 - 2 * ((w >> 8) & 15)))) & 0xFFFFFFFF:
+            acc.violation('C18:long-run:MOV-did-not-move', {'kind': 'long-run', 'seed': seed, 'nwords': nwords, 'failed_at_step': k, 'word': w}, {'step': k, 'word': '%#x' % w})
+            return acc
+        if (cpu.registers.cpsr.value & 31) != 0b10011:
+            cpu.registers.cpsr.value = (cpu.registers.cpsr.value & ~0x3F) | 0b10011
+    return acc
+
+
 def shard_witness(which, part, nparts, seed, members):
     """one word for every path of armulator's decoder joint with the reference table (plus solver-generated members of each region):
     the cube representatives of the 2^32 word space, each stepped in a generated state on a random configuration"""
@@ -297,6 +348,7 @@ def run(ctx):
     c07.SPEC32.compute_joint()
     tasks += [(shard_witness, ('t32', i, 8, ctx.shard_seed(k + i), ctx.n(6, 40))) for i in range(8)]
     tasks += [(shard_coproc, (ctx.shard_seed(k + 40 + i), ctx.n(3000, 40000))) for i in range(4)]
+    tasks.insert(0, (shard_long, (ctx.shard_seed(k + 90), ctx.n(140000, 600000))))        # (first: it is the longest single task)
     tasks += [(shard_stage2_arm, (i, 4, ctx.shard_seed(k + 30 + i), ctx.n(4, 40))) for i in range(4)]
     if not ctx.quick:
         from vf.props import c06
@@ -311,6 +363,8 @@ def _dispatch(fn, args):
 
 
 def replay(case, bucket_=None):
+    if case.get('kind') == 'long-run':
+        return sorted(shard_long(case['seed'], case['nwords']).viol)
     acc = Acc()
     check_case(acc, case, 'replay', 'replay')
     return sorted(acc.viol)
